@@ -215,6 +215,39 @@ Proof.
         -- rewrite Hs1, sl_remove_get. destruct (N.eqb k mk); [reflexivity|assumption].
 Qed.
 
+(* well-formedness alone survives the loop, whatever the sign of the costs *)
+Lemma evict_loop_WF est ih k cost oracle :
+  forall s sample victims log mets s' v a l m,
+  WF s -> aget k (sl_kc s) = None ->
+  evict_loop est ih k cost oracle s sample victims log mets = AddDone s' v a l m -> WF s'.
+Proof.
+  induction oracle as [|smp oracle IH]; intros s sample victims log mets s' v a l m W Ek; cbn [evict_loop].
+  - destruct (0 <=? sl_room_left s cost); [|discriminate]. intros H; inversion H; subst.
+    apply WF_increment; assumption.
+  - destruct (0 <=? sl_room_left s cost).
+    + intros H; inversion H; subst. apply WF_increment; assumption.
+    + destruct (negb (legal_fill (sl_kc s) sample smp)); [discriminate|].
+      destruct (find_min0 est smp) as [[[mk mh] mi] mc].
+      destruct (ih <? mh); [intros H; inversion H; subst; assumption|].
+      destruct smp; [discriminate|]. destruct (pol_remove s mk) as [s1 ev] eqn:PR.
+      assert (Hs1 : s1 = fst (sl_remove s mk)) by (rewrite <- pol_remove_fst, PR; reflexivity).
+      intros H. eapply IH; [| |exact H].
+      * rewrite Hs1. apply WF_remove. assumption.
+      * rewrite Hs1, sl_remove_get. destruct (N.eqb k mk); [reflexivity|assumption].
+Qed.
+
+Lemma pol_add_WF_only est oracle s k cost s' v a l m :
+  WF s -> pol_add est oracle s k cost = AddDone s' v a l m -> WF s'.
+Proof.
+  intros W. unfold pol_add. destruct (sl_max s <? cost); [intros H; inversion H; subst; assumption|].
+  pose proof (WF_update s k cost W) as WU. unfold sl_update in *.
+  destruct (aget k (sl_kc s)) eqn:Ek; cbn [fst snd] in *.
+  - intros H; inversion H; subst. assumption.
+  - destruct (0 <=? sl_room_left s cost).
+    + intros H; inversion H; subst. apply WF_increment; assumption.
+    + apply evict_loop_WF; assumption.
+Qed.
+
 (* ---- pol_add as a whole ---- *)
 
 Inductive add_case := CaseOversize | CaseUpdate | CaseRoom | CaseLoop.
